@@ -30,6 +30,16 @@ var coreTypes = map[string]reflect.Type{
 	"StorageUsed":        reflect.TypeOf(tlb.StorageUsed{}),
 	"StorageInfo":        reflect.TypeOf(tlb.StorageInfo{}),
 	"HashUpdate":         reflect.TypeOf(tlb.HashUpdate{}),
+	// the transaction records of block_core.tlb also as random values (real blocks hold only a few of their constructors)
+	"AccountStatus":     reflect.TypeOf(tlb.AccountStatus("")),
+	"AccStatusChange":   reflect.TypeOf(tlb.AccStatusChange("")),
+	"ComputeSkipReason": reflect.TypeOf(tlb.ComputeSkipReason("")),
+	"TrStoragePhase":    reflect.TypeOf(tlb.TrStoragePhase{}),
+	"TrCreditPhase":     reflect.TypeOf(tlb.TrCreditPhase{}),
+	"TrComputePhase":    reflect.TypeOf(tlb.TrComputePhase{}),
+	"TrActionPhase":     reflect.TypeOf(tlb.TrActionPhase{}),
+	"TrBouncePhase":     reflect.TypeOf(tlb.TrBouncePhase{}),
+	"TransactionDescr":  reflect.TypeOf(tlb.TransactionDescr{}),
 	// spec/schemas/block_more.tlb
 	"Account":             reflect.TypeOf(tlb.Account{}),
 	"AccountStorage":      reflect.TypeOf(tlb.AccountStorage{}),
